@@ -5,10 +5,15 @@ package c04
 import (
 	"context"
 	"fmt"
+	"github.com/notaryproject/notation-core-go/revocation"
+	rocsp "github.com/notaryproject/notation-core-go/revocation/ocsp"
 	"github.com/notaryproject/notation-core-go/revocation/result"
 	"math/rand/v2"
 	"sort"
 	"strings"
+	"sync"
+	"time"
+	"verif/harness/pki"
 
 	"verif/harness/core"
 	"verif/harness/netsim"
@@ -208,6 +213,14 @@ func run(r *core.Run) int {
 			}
 		}
 	}
+	// two authentic Good answers cross their next-update instant while the
+	// scenarios run
+	var live sync.WaitGroup
+	for _, e := range []string{"validate", "ocsp"} {
+		e := e
+		live.Add(1)
+		go func() { defer live.Done(); liveExpiry(r, e) }()
+	}
 	r.Set("alphabet", alpha)
 	r.Set("singles_and_pairs_exhaustive", pairsEnd)
 	r.Parallel(len(jobs), func(i int) {
@@ -237,6 +250,7 @@ func run(r *core.Run) int {
 			r.Sample("result-"+out.Results[0].Result.String(), map[string]any{"scenario": sc.Desc(), "result": sims.CanonString(sims.Canon(out.Results))})
 		}
 	})
+	live.Wait()
 	return r.Finish(r.Pick(3000, 20000),
 		core.Require{Counter: "result-OK", Why: "no execution ended OK"},
 		core.Require{Counter: "result-Revoked", Why: "no execution ended Revoked"},
@@ -248,6 +262,66 @@ func run(r *core.Run) int {
 }
 
 func pick(rng *rand.Rand, a []string) string { return a[rng.IntN(len(a))] }
+
+// liveExpiry watches an authentic Good answer cross its next-update instant in
+// real time. The workload uses the clock, the verdict does not depend on
+// speed: a check that BEGAN after the instant (clock read before the call)
+// and still came out OK accepted an expired answer.
+func liveExpiry(r *core.Run, entry string) {
+	fam := sims.Fam(2, "p256", false)
+	sh := sims.HTTPShape(1, 0)
+	kit := fam.KitFor(0, sh, sims.Shape{})
+	T := time.Now().Truncate(time.Second).Add(2 * time.Second)
+	body := pki.BuildOCSP(&pki.OCSPResp{Issuer: kit.Issuer, SignKey: kit.IKey,
+		Singles: []pki.OCSPSingle{{Serial: kit.Cert.SerialNumber, Status: pki.OCSPGood, Reason: -1, ThisUpdate: pki.Past, NextUpdate: T}}})
+	net := netsim.New()
+	net.Handle(fam.Host(0, "o", 0), func(*netsim.Request) netsim.Reply { return netsim.Reply{Body: body, Class: "good-until-T"} })
+	chain := fam.Chain([]sims.Shape{sh, {}})
+	v, err := revocation.NewWithOptions(revocation.Options{OCSPHTTPClient: net.Client(), CRLFetcher: sims.NewFetcher()})
+	if err != nil {
+		r.Inconclusive("live expiry: " + err.Error())
+		return
+	}
+	okBefore, inWindow := 0, 0
+	for time.Now().Before(T.Add(1300 * time.Millisecond)) {
+		began := time.Now()
+		var rs []*result.CertRevocationResult
+		var cerr error
+		if p := core.Guard(func() {
+			if entry == "ocsp" {
+				rs, cerr = rocsp.CheckStatus(rocsp.Options{CertChain: chain, HTTPClient: net.Client()})
+			} else {
+				rs, cerr = v.ValidateContext(context.Background(), revocation.ValidateContextOptions{CertChain: chain})
+			}
+		}); p != nil {
+			r.Count("panicked", 1)
+			return
+		}
+		r.Eval(1)
+		ok := cerr == nil && len(rs) == 2 && rs[0] != nil && rs[0].Result == result.ResultOK
+		switch {
+		case !began.After(T):
+			if ok {
+				okBefore++
+			}
+		case began.Before(T.Add(time.Second)):
+			inWindow++
+		}
+		if ok && began.After(T) {
+			r.Violation("expired-answer-accepted-at-the-boundary:"+entry, fmt.Sprintf("a check (%s) that began %v after the Good answer's next-update instant came out OK", entry, began.Sub(T)),
+				map[string]any{"note": "live-expiry observation: re-run the check", "began_after_T_ns": began.Sub(T).Nanoseconds()})
+			return
+		}
+		time.Sleep(300 * time.Microsecond)
+	}
+	r.Count("live-expiry-ok-before-the-instant", okBefore)
+	r.Count("live-expiry-checks-within-a-second-after", inWindow)
+	if inWindow == 0 || okBefore == 0 {
+		r.Inconclusive("live expiry (" + entry + "): nothing observed on both sides of the boundary (machine too loaded)")
+	} else {
+		r.Nontrivial("live-expiry " + entry)
+	}
+}
 
 func replay(r *core.Run, path string) int {
 	var sc sims.Scenario
